@@ -642,6 +642,18 @@ impl Monitor {
                 ))
             }
         }
+        if let Some(pt) = &self.pterm {
+            if pt.held_to_drop.contains(&id) {
+                return Err(v(
+                    &["C02", "C03"],
+                    "held-call-ran-on-termination",
+                    format!(
+                        "{} although actor a{} terminated ({:?}) while still holding it in Prep: it must be discarded, never run",
+                        what, pt.aid, pt.cause
+                    ),
+                ));
+            }
+        }
         self.check_no_obligations(&what)?;
         self.run_events += 1;
         if it.q != Q::Idle {
